@@ -23,6 +23,7 @@ EXPLANATION = (
     "record is deleted (boundary lengths x counter states in the quick tier, all 224 x 8 in the thorough tier; every branch of the reassembler depends on counters "
     "and lengths only, so the interpretation is total). The decoder-side structural rules (FP-HDR-DEC, FP-STRIP) and RA-* are confirmations since the third round: the verdict comes from FP-ROUNDTRIP (headers concrete for every counter value) and from the interpreted frame histories of rules_reasm.py. UNDECIDED: payloads longer than 223 bytes; delivery through the public entry points with a real PGN's "
     "field decoder on top (C01/C07)."
+    ' Fifth round: the initial sequence counter is read off the interpreted constructor.'
 )
 ASSUMPTIONS = ["CPython ast parser", "absint.py transfer functions (bytes concatenation, slicing, bytes([..]), int arithmetic on shape integers)",
                "bitprov.py transfer functions", "frames reach the decoder byte-reversed (C07 FE-ORIENT)"]
